@@ -1482,11 +1482,12 @@ class Generator:
             if len(f) != 1 or len(t) != 1:
                 raise ExtractError(f"{iid}: fragment anchors must match exactly once (from: {len(f)}, to: {len(t)})")
             si = f[0][3]
-            lo, hi = si[f[0][0]], si[t[0][0]]
+            lo, hi = si[f[0][0]], si[t[0][0] + int(kv.get("skip", 0))]
         if lo >= hi:
             raise ExtractError(f"{iid}: fragment anchors out of order")
         frag = [p for p in pieces[lo:hi]]
         item_src = "".join(p.text for p in frag)
+        n1_async(frag, file, self.applied)   # `.await` inside the fragment (no cancel claim is attached to fragments)
         rws = [l for l in hdr if l.strip().startswith("//@ rewrite ")]
         hdr = [l for l in hdr if not l.strip().startswith("//@ rewrite ")]
         for l in rws:
